@@ -218,6 +218,7 @@ PSY_INTERNAL:
             std::unique_ptr<DeclarationSymbol> decl);
 
     DeclarationSymbol* declarationBy(const DeclaratorSyntax* node);
+    std::vector<DeclarationSymbol*> declarations();
     FunctionDeclarationSymbol* functionFor(const FunctionDefinitionSyntax* node);
     ParameterDeclarationSymbol* parameterFor(const ParameterDeclarationSyntax* node);
     EnumeratorDeclarationSymbol* enumeratorFor(const EnumeratorDeclarationSyntax* node);
